@@ -139,11 +139,13 @@ def validity_sample(prop, seed, exe, cdir, n, rdir):
         idx = i * 128
         r = subprocess.run([exe, "--prop", "C09", "--corpus", cdir, "--seed", str(seed), "--start", str(idx), "--count", "1", "--canonical-dump", "--scratch", rdir],
                            stdout=subprocess.PIPE, stderr=subprocess.PIPE, timeout=120)
-        m = re.search(r"CANON idx=\d+ exit=(\d+) outhash=\w+ root=(\S+) outdir=(\S+) outbase=(\S+) args=(\S+) files=(.*)", r.stdout.decode())
+        m = re.search(r"CANON idx=\d+ exit=(\d+) outhash=\w+ root=(\S+) outdir=(\S+) outbase=(\S+) args=(\S+) dmode=(\S+) files=(.*)", r.stdout.decode())
         if not m:
             continue
         ex, root, outdir, outbase, args = int(m.group(1)), m.group(2), m.group(3), m.group(4), m.group(5)
-        created = set(m.group(6).strip().split("|"))
+        created = set(m.group(7).strip().split("|"))
+        if m.group(6).startswith("sectcreate"):
+            ex = 1      # Mach-O only output (mach/mach.h, getsectdata): cannot be compiled on this host
         top = os.path.dirname(root)
         try:
             if ex != 0:
@@ -320,7 +322,9 @@ def behaviour_sample(seed, n, rdir):
             out, err = res[(m, vname)]
             compared += 1
             if out is None:
-                bad.append({"module": m, "variant": vname, "class": "variant-does-not-build", "error": err[-700:]})
+                em = re.search(r"error: ([^\n]*)", err)
+                first = safe_name(re.sub(r"[‘'\"][^’'\"]*[’'\"]", "Q", em.group(1)))[:50] if em else "build-error"
+                bad.append({"module": m, "variant": vname + ":" + first, "class": "variant-does-not-build", "error": err[-700:]})
             elif out != base:
                 import difflib
                 d = "".join(list(difflib.unified_diff(base.splitlines(True), out.splitlines(True), "default", vname))[:20])
